@@ -7,3 +7,15 @@ LEVEL["C02"] = ("All-paths ordering argument over the control-flow graph of ever
 NOTE["C02"] = ("Not decided: durability of individual writes (no fsync exists), OS rename semantics, readability of "
                "partially written files. Exceptions thrown by callees are treated as crash points. Function values "
                "(merge policies) are resolved through a frozen table.")
+LEVEL["C03"] = ("Value-flow and sibling-agreement rules over the reader-opening code: the reader's segment list is the "
+                "TOC's, up_to_date()/refresh() share one definition of 'current', the TOC read sits inside the retry "
+                "loop and a vanished file stays an IOError all the way up, nothing on the read side mutates storage.")
+NOTE["C03"] = ("Not decided: OS semantics of unlinked/mmapped files, lazily opened column files vanishing under a held "
+               "reader. One genuine defect (refresh() carrying over merged-away segments) is pinned by an existing test "
+               "and listed in known_findings.jsonl.")
+LEVEL["C04"] = ("All-paths rules on the CFG of the writer constructor (lock acquired before the TOC read; generation = "
+                "that read + 1) and of every writer's commit()/cancel() (lock released on every path, after the last "
+                "index-file effect), a who-may-skip-the-lock table, and an interface rule that every Storage's lock "
+                "is non-blocking by default so a second writer gets LockError instead of hanging.")
+NOTE["C04"] = ("Not decided: fairness/timing of try_for, flock semantics across processes, lock leak when commit() itself "
+               "raises. stdlib lock defaults come from a 6-entry table.")
